@@ -43,12 +43,8 @@ CLAIMED = {
     technique="deductive verification: modular contracts + loop invariants over recursive-sum spec functions, z3",
     design="DESIGN.md section 5 C02"),
  "C13": dict(
-    text="Safety contracts of compiled kernels with every callee inlined: each array subscript is de-flattened against the logical shape the Python call site "
-         "passes and proved in range, divisions are proved non-zero, and for each omp parallel for the scalars assigned in the body are proved private/local and every "
-         "write is proved disjoint from every access of another iteration (hence schedule independent). Functional equality with the reference semantics is proved in "
-         "the per-property checks (C02, C10, C11).",
-    note=TRUST + "Kernels covered so far: dym_get_dynamical_matrix_at_q, dym_transform_dynmat_to_fc, phpy_get_thermal_properties (in C10). Others are being added; "
-         "int overflow is outside the model (A-INT). nanobind glue read, not verified.",
+    text="Memory safety and schedule independence: safety contracts with every callee inlined for dym_get_dynamical_matrix_at_q, dym_transform_dynmat_to_fc, phpy_tetrahedron_method_dos (fixed-point count lemma), multiply_borns, phpy_set_smallest_vectors_sparse (no bound on ties), and inside the functional contracts of phpy_get_thermal_properties, phpy_set_smallest_vectors_dense and the others: every array subscript is de-flattened against the logical shape the Python call site passes and proved in range, divisions are proved non-zero, and for each omp parallel for the scalars assigned in the body are proved private/local and every write disjoint from every access of another iteration (hence the result does not depend on the schedule or the number of threads). Same-result-as-reference: the functional contracts of the kernels of C01, C02, C05, C06, C07, C08, C10, C11 (C == Python proved there), C12 are re-proved in this check.",
+    note=TRUST + "Kernels not yet under a contract: phpy_compute_permutation, get_dd / dym_get_recip_dipole_dipole (Gonze-Lee reciprocal sum), phpy_perm_trans_symmetrize_compact_fc driver, phpy_get_tetrahedra_frequenies, the derivative OpenMP loop, rgd_* beyond the index arithmetic of C11. Int overflow is outside the model (A-INT). The nanobind glue c/_phonopy.cpp is read, not verified. Finding E15 (sparse shortest-vector kernel wrote past its 27 slots) repaired by a fix: commit.",
     technique="deductive verification: bounds/race VCs from symbolic execution of the inlined kernels, z3",
     design="DESIGN.md section 5 C13"),
  "C17": dict(
@@ -60,18 +56,14 @@ CLAIMED = {
     technique="deductive verification: symbolic evaluation of the unit tables + exact algebraic identities",
     design="DESIGN.md section 5 C17"),
  "C20": dict(
-    text="The three EOS closures returned by get_eos are extracted by symbolic execution and differentiated mechanically: E(V0)=E0, dE/dV(V0)=0, V0 d2E/dV2(V0)=B0, "
-         "-1 - V0 E3/E2 = B0p (E2, E3 second and third volume derivatives at V0) for Vinet, Birch-Murnaghan and Murnaghan, for all parameter values (exact identities).",
-    note=TRUST + "QHA.run assembly, finite differences and the least-squares fit are not yet covered by this check.",
+    text="phonopy/qha/eos.py: the three EOS closures returned by get_eos are extracted by symbolic execution and differentiated mechanically: E(V0)=E0, dE/dV(V0)=0, V0 d2E/dV2(V0)=B0, -1 - V0 E3/E2 = B0' for Vinet, Birch-Murnaghan and Murnaghan, for all parameter values (exact identities). phonopy/qha/core.py: QHA.__init__ adds the pressure as + P V / EVAngstromToGPa to the electronic term (every temperature row of a 2-D input), only converts the phonon free energy from kJ/mol to eV and copies caller arrays; QHA._set_thermal_expansion is the documented central difference with beta_0 = 0.",
+    note=TRUST + "NOT decided: scipy.optimize.leastsq convergence (EOSFit.fit), numpy.polyfit fits, the remaining QHA derived quantities.",
     technique="deductive verification: symbolic execution + mechanical differentiation, exact identities",
     design="DESIGN.md section 5 C20"),
 
  "C04": dict(
-    text="Supercell._create_supercell is executed symbolically (Python front end, 3x3 numpy mini-model) for the classic and the Smith-normal-form path with a symbolic "
-         "integer supercell matrix S and lattice L; the lattice handed to PhonopyAtoms (through _get_simple_supercell, _trim_cell, TrimmedCell._run) is proved equal to "
-         "S^T L element by element (exact rational identities). Per-atom arrays are abstracted and listed in the evidence.",
-    note=TRUST + "Only the lattice obligation is decided so far; atom counts, maps, SNF steps, primitive-cell maps and the tolerance geometry are not yet under contract. "
-         "SNF3x3 is assumed to return a unimodular P. Finding E3 (S L instead of S^T L on the SNF path) repaired by a fix: commit.",
+    text="phonopy/structure/cells.py by symbolic execution with the 3x3 numpy mini-model: Supercell._create_supercell for the classic and the Smith-normal-form path with a symbolic integer supercell matrix S and lattice L: the lattice handed to PhonopyAtoms (through _get_simple_supercell, _trim_cell, TrimmedCell._run) equals S^T L element by element (exact rational identities); Supercell._get_simple_supercell: symbols, masses, magnetic moments and the atom map are the unit-cell lists replicated by one and the same index function; TrimmedCell._run: positions, symbols, masses, magnetic moments and extracted_atoms are reordered by the same index array (index-function tags on abstracted per-atom arrays).",
+    note=TRUST + "NOT decided: atom counts and uniqueness of the trimmed cell, SNF elementary steps, primitive-cell index maps, tolerance geometry. SNF3x3 is assumed to return a unimodular P. Finding E3 (S L instead of S^T L on the SNF path) repaired by a fix: commit.",
     technique="deductive verification: symbolic execution of the Python source with abstracted per-atom data + exact identities",
     design="DESIGN.md section 5 C04"),
  "C07": dict(
@@ -84,18 +76,13 @@ CLAIMED = {
     technique="deductive verification: loop invariants with quantified array facts and recursive-sum spec functions, z3; replay on the compiled code",
     design="DESIGN.md section 5 C07"),
  "C12": dict(
-    text="ddm_get_derivative_dynmat_at_q: the Hermitian post-processing of the three Cartesian derivative matrices is proved (loop invariants over the (j,k) pair "
-         "loops, callee blocks by frame contract): every direction is Hermitian on return.",
-    note=TRUST + "The functional contract of get_derivative_dynmat_at_q (q-derivative of the Fourier sum), the NAC derivative, group velocities and Grueneisen "
-         "parameters are not yet under contract. Finding E9 (directions 1,2 not Hermitian) repaired by a fix: commit.",
+    text="c/derivative_dynmat.c: get_derivative_dynmat_at_q under a functional contract: every 3x3 block of the three Cartesian derivative matrices equals the q-derivative of the C02 Fourier-sum spec (mechanical differentiation of the summand, loop invariants over atoms and images), and the Hermitian post-processing of ddm_get_derivative_dynmat_at_q makes every direction Hermitian (all rows, loop invariants over the pair loops); Wang-NAC derivative helpers: get_dA == d/dq get_A and get_dC == d/dq get_C (exact identities). Python: GruneisenBase._set_gruneisen re-orders eigenvalues, eigenvector columns and <e|dD|e> by the same band order.",
+    note=TRUST + "NOT decided: first-order perturbation theory (Hellmann-Feynman) linking dD/dq to group velocities (cited), degeneracy handling, the finite-difference group-velocity path, Grueneisen prefactors. Finding E9 (directions 1,2 not Hermitian) repaired by a fix: commit.",
     technique="deductive verification: loop invariants, z3; replay on the compiled code",
     design="DESIGN.md section 5 C12"),
  "C14": dict(
-    text="Python access paths: IterMesh.__next__ definite assignment on every path; Phonopy.init_mesh constructs Mesh and IterMesh from equal values of every common "
-         "parameter (mesh as numbers and as length); QpointsPhonon._run buffer-ownership obligation (arrays collected for output are not overwritten in place, "
-         "for both values of use_openmp and all option combinations).",
-    note=TRUST + "Buffers of abstracted numpy arrays are tracked region-insensitively (conservative). Loops over abstracted sequences are executed as one generic "
-         "iteration. Not decided: numerical equality of the spectra across paths (reduces to C02), band connection, yaml/hdf5 output. Findings E1, E12, E14 repaired by fix: commits.",
+    text="Python access paths by symbolic execution: IterMesh.__next__ definite assignment on every path and the frequency expression sqrt|e| sign(e) factor; Phonopy.init_mesh constructs Mesh and IterMesh from equal values of every common parameter (mesh as numbers and as length) and hands both the primitive cell's point-group operations; QpointsPhonon._run buffer ownership (arrays collected for output are not overwritten in place, for both values of use_openmp and all option combinations); BandStructure._solve_dm_on_path with band connection re-orders eigenvalues, eigenvector columns and group velocities by the same band order.",
+    note=TRUST + "numpy arrays are abstracted with a buffer-ownership model (views share buffers; conservative). Loops over abstracted sequences are executed as one generic iteration. NOT decided: numerical equality of the spectra across paths (reduces to C02), yaml/hdf5 output. Findings E1, E12, E14 repaired by fix: commits.",
     technique="deductive verification: symbolic execution of the Python source with an abstract buffer-ownership model",
     design="DESIGN.md section 5 C14"),
 
@@ -108,12 +95,8 @@ CLAIMED = {
     technique="deductive verification: modular contracts + loop invariants over recursive-sum spec functions, z3",
     design="DESIGN.md section 5 C06"),
  "C01": dict(
-    text="Symmetry-expansion kernel of the finite-displacement solver: phpy_distribute_fc2 (c/phonopy.c) is symbolically executed from clang's AST on every run; "
-         "with a ghost map of the rows already filled, the postcondition is that every row i whose representative atoms[map_atoms[map_syms...]] differs from i "
-         "holds R^T * Phi[rep, perm(j)] * R for every j (the rotated copy of the representative row) and that rows of representative atoms and everything outside "
-         "the target rows are unchanged (frame); all subscripts in range. All sizes, permutations and rotation matrices symbolic.",
-    note=TRUST + "Only the distribution kernel is under contract; the least-squares solve of the first-atom rows (numpy.linalg.pinv), compute_permutation and "
-         "the displacement-direction search are not decided by this check.",
+    text="Symmetry-expansion kernel of the finite-displacement solver: distribute_fc2 (c/phonopy.c) is symbolically executed from clang's AST on every run; with a ghost map of the rows already filled, the postcondition is that every row i whose representative differs from i holds R^T Phi[rep, perm(j)] R for every j (the rotated copy of the representative row) and that rows of representative atoms and everything outside the target rows are unchanged (frame); all subscripts in range; all sizes, permutations and rotation matrices symbolic. Displacement-direction search (phonopy/harmonic/displacement.py): on every returning path of _get_displacement_one / _get_displacement_two the returned direction(s) together with the site-symmetry images R_i d (x' = R x) the solver will use have a non-zero determinant, for generic integer operations and directions.",
+    note=TRUST + "NOT decided: the least-squares solve of the first-atom rows (numpy.linalg.pinv and its cutoff), phpy_compute_permutation, get_least_displacements bookkeeping, is_minus_displacement. The direction search is executed for two generic operations and two generic directions (the functions treat list elements uniformly and return right behind the guard).",
     technique="deductive verification: modular contract with ghost state + loop invariants, z3",
     design="DESIGN.md section 5 C01"),
  "C15": dict(
